@@ -10,7 +10,7 @@ RULE = ("enumerated grid: every public operation (GroupBy reductions incl. var/s
         "subset_ratio/density, transform, cumulative, rolling, shift/diff, ema plain+timed, head/tail/nth, crosstab; stand-alone "
         "ema, ema_grouped, numba group_*/cum*/rolling_* kernels, group_nearby_members) x each of its array arguments (values, "
         "second values, boolean mask, subset mask, timestamps, column keys) x perturbation (length n-3..n+3, 0, 2n; for "
-        "pandas arguments with pandas keys: permuted, shifted and duplicated index of the right length), over seeded small "
+        "pandas arguments with pandas keys: permuted, shifted, duplicated and reset (0..n-1) index of the right length), over seeded small "
         "datasets with numpy or pandas keys. The aligned call must return; every perturbed call must raise (type and message "
         "free). distinct = (operation, argument, perturbation, dataset) tuples; non-trivial = every perturbed call")
 ASSUMPTIONS = [
@@ -93,7 +93,7 @@ def _standalone_ops():
 
 
 LEN_PERT = ["n-1", "n-2", "n-3", "n+1", "n+2", "n+3", "0", "2n"]
-IDX_PERT = ["permuted", "shifted", "duplicated"]
+IDX_PERT = ["permuted", "shifted", "duplicated", "reset", "reset_int"]
 
 
 def perturb(obj, kind, n, rng):
@@ -121,6 +121,9 @@ def perturb(obj, kind, n, rng):
         return pd.Series(arr, index=obj.index[p], name=obj.name) if n > 1 else None
     if kind == "shifted":
         return pd.Series(arr, index=obj.index + 1 if obj.index.dtype.kind in "iu" else obj.index.map(lambda s: str(s) + "x"), name=obj.name)
+    if kind in ("reset", "reset_int"):
+        # same length, labels thrown away (reset_index(drop=True)): 0..n-1 is still a set of labels, and not the keys' ones
+        return pd.Series(arr, index=pd.RangeIndex(n) if kind == "reset" else pd.Index(np.arange(n, dtype="int64")), name=obj.name)
     if kind == "duplicated":
         return pd.Series(arr, index=pd.Index([obj.index[0]] * n), name=obj.name) if n > 1 else None
     return None
